@@ -24,6 +24,9 @@ def main():
         r = sh(f"git -C {REPO} apply {patch}")
         if r.returncode != 0:
             print(f"{patch}: does not apply: {r.stderr.strip()}"); continue
+        import shutil, tempfile
+        evbak = tempfile.mkdtemp(prefix="evbak", dir=os.path.join(VERIF, ".work") if os.path.isdir(os.path.join(VERIF, ".work")) else None)
+        shutil.copytree(os.path.join(VERIF, "evidence"), os.path.join(evbak, "evidence"))
         try:
             for p in props:
                 c = sh(f"python3 tools/check.py {p} --tier {a.tier}", cwd=VERIF)
@@ -33,6 +36,10 @@ def main():
                 sys.stdout.flush()
         finally:
             sh(f"git -C {REPO} checkout -- . && git -C {REPO} clean -fdq")
+            # evidence written while the repository was mutated must not replace the committed evidence
+            shutil.rmtree(os.path.join(VERIF, "evidence"), ignore_errors=True)
+            shutil.copytree(os.path.join(evbak, "evidence"), os.path.join(VERIF, "evidence"))
+            shutil.rmtree(evbak, ignore_errors=True)
     if sh("git -C /repo status --porcelain").stdout.strip():
         print("WARNING: /repo not clean after run")
 
